@@ -9,9 +9,9 @@ cd $W || exit 2
 git checkout -q -- src 2>/dev/null; git apply $O/patch.diff || { echo "patch does not apply"; exit 2; }
 mkdir -p tests; cp $O/demo.rs tests/demo_$P.rs
 T1=$(cargo test --offline --lib 2>&1 | grep -E "^test result" | head -1)
-D1=$(cargo test --offline --features test-utils --test demo_$P 2>&1 | grep -E "^test result|error(\[|:)" | head -2 | tr '\n' ' ')
+D1=$(cargo test --offline --features test-utils --test demo_$P 2>&1 | grep -E "^test result|^error(\[|:)" | head -2 | tr '\n' ' ')
 git apply -R $O/patch.diff
-D0=$(cargo test --offline --features test-utils --test demo_$P 2>&1 | grep -E "^test result|error(\[|:)" | head -2 | tr '\n' ' ')
+D0=$(cargo test --offline --features test-utils --test demo_$P 2>&1 | grep -E "^test result|^error(\[|:)" | head -2 | tr '\n' ' ')
 echo "existing tests with patch : $T1"; echo "demo with patch           : $D1"; echo "demo without patch        : $D0"
 mkdir -p /verif/seeded/$P$S; cp $O/patch.diff $O/demo.rs /verif/seeded/$P$S/; cp $O/notes.md /verif/seeded/$P$S/notes.md 2>/dev/null
 cd /verif
